@@ -31,7 +31,7 @@ def source_docs(tier, rng):
     for k in range(20 if tier == 'quick' else 200):
         out.append((f'rich running order #{k}', TJ.to_text(g.ro(rng.randrange(0, 4)))))
     state = TJ.canon(g.ro(3))
-    for k in range(60 if tier == 'quick' else 600):
+    for k in range(60 if tier == 'quick' else 5000):
         cls, msg = gen_hist.random_message(g, state, 300 + k)
         out.append((f'random {cls} #{k}', TJ.to_text(msg)))
     return out
@@ -321,7 +321,7 @@ def run_c19(tier, seed):
             for cmd in ('detect', 'inspect'):
                 jobs.append((cmd, lst, {}))
         # merge: collections from histories (files written to disk) x option combinations
-        hist = hist_run.run_histories([seed * 1237 + k for k in range(10 if tier == 'quick' else 80)], max_steps=6)
+        hist = hist_run.run_histories([seed * 1237 + k for k in range(10 if tier == 'quick' else 300)], max_steps=6)
         merge_sets = []
         for h in hist:
             hn = []
